@@ -373,8 +373,20 @@ func ruleNoCallUnderLock(c *Ctx) {
 							onceOK, why = false, "the function run by Once.Do re-enters "+fd.Name.Name+": Do deadlocks on itself"
 						}
 					}
+				} else if fl, ok := unparen(call.Args[0]).(*ast.FuncLit); ok {
+					caller, _ := c.Info.Defs[fd.Name].(*types.Func)
+					ast.Inspect(fl.Body, func(m ast.Node) bool {
+						if cc, ok := m.(*ast.CallExpr); ok {
+							if g, ok := c.callee(cc).(*types.Func); ok && g.Pkg() == c.Types {
+								if c.reaches(g, func(h *types.Func) bool { return h == caller }) {
+									onceOK, why = false, "the function literal run by Once.Do re-enters "+fd.Name.Name+": Do deadlocks on itself"
+								}
+							}
+						}
+						return true
+					})
 				} else {
-					onceOK, why = false, "Once.Do argument is not a named function"
+					onceOK, why = false, "Once.Do argument is neither a named function nor a function literal"
 				}
 			}
 			return true
